@@ -1,4 +1,5 @@
 import FpgoVerif.Proofs.C07Inv
+import FpgoVerif.Proofs.C07Drain
 import FpgoVerif.Gen.Skeletons
 import FpgoVerif.Gen.BCQGuards
 /-! Property theorems for C07 — Channel/Buffered queues: bounded, FIFO, exactly-once delivery, nothing stranded.
@@ -141,7 +142,7 @@ theorem C07_progress (c b : Nat) (s : St) (h : Reach c b s) (hc : 1 ≤ c) (hl :
   have hin : s.inflight = none := inflight_none_of_not_loader i.infl (by simp [hl])
   have hcc : 0 < s.c := by have := (reach_cfg h).1; omega
   refine ⟨_, by simp [run, step, hl, hw, hch, hp, hin, hcc]; rfl, ?_⟩
-  simp [step, hch]
+  simp [step]
 
 /-- the same when the loader already holds a token (it stands before `Lock`) -/
 theorem C07_progress_woke (c b : Nat) (s : St) (h : Reach c b s) (hc : 1 ≤ c) (hl : s.lock = .free)
@@ -150,10 +151,35 @@ theorem C07_progress_woke (c b : Nat) (s : St) (h : Reach c b s) (hc : 1 ≤ c) 
   have i := reach_inv h
   have hin : s.inflight = none := inflight_none_of_not_loader i.infl (by simp [hl])
   have hcc : 0 < s.c := by have := (reach_cfg h).1; omega
-  exact ⟨_, by simp [run, step, hl, hw, hch, hp, hin, hcc]; rfl, by simp [hch], rfl⟩
+  exact ⟨_, by simp [run, step, hl, hw, hch, hp, hin, hcc]; rfl, by simp, rfl⟩
+
+/-- a loader pass started under the lock always runs to completion (with nobody blocked in a receive it ends by
+    `loaderDone` or `loaderUnshift`), leaves `delivered`/`accepted` untouched, and leaves the channel non-empty if it
+    was non-empty or there was anything to move and c ≥ 1 -/
+theorem C07_pass_terminates (s : St) (hl : s.lock = .loader) (hw : s.waiters = 0) :
+    ∃ acts s', acts.all noOffer = true ∧ run s acts = some s' ∧ s'.lock = .free ∧ s'.lpc = .waiting ∧
+      s'.delivered = s.delivered ∧ s'.accepted = s.accepted ∧
+      ((s.chan ≠ [] ∨ ((s.inflight ≠ none ∨ s.pool ≠ []) ∧ 0 < s.c)) → s'.chan ≠ []) := by
+  obtain ⟨acts, s', ha, hr, pe⟩ := pass_finishes (passMeasure s + 1) s (by omega) hl hw
+  exact ⟨acts, s', ha, hr, pe.lock, pe.lpc, pe.deliv, pe.acc, pe.chanNe⟩
+
+/-- **Nothing stranded, whole queue (c ≥ 1).**  From every reachable quiescent state (no Offer in progress, no
+    pass in progress, nobody blocked in a receive) there is a continuation consisting only of Poll atoms (`notify`,
+    `tryRecv`) and loader atoms — no further Offer — after which every accepted value has been delivered; by
+    `C07_fifo` in acceptance order.  (Existence of the schedule = what repeated Poll calls and the passes they
+    trigger do under a fair scheduler; fairness itself is an assumption.) -/
+theorem C07_drain (c b : Nat) (s : St) (h : Reach c b s) (hc : 1 ≤ c) (hl : s.lock = .free)
+    (hp : s.lpc ≠ .inpass) (hw : s.waiters = 0) :
+    ∃ acts s', acts.all noOffer = true ∧ run s acts = some s' ∧ s'.delivered = s.accepted ∧
+      s'.accepted = s.accepted ∧ Reach c b s' := by
+  obtain ⟨acts, s', ha, hr, hd, hacc⟩ := drain (s.accepted.length - s.delivered.length + 1) s (reach_inv h)
+    (by rw [(reach_cfg h).1]; exact hc) hl hp hw (by omega)
+  obtain ⟨pre, hpre⟩ := h
+  refine ⟨acts, s', ha, hr, hd, hacc, pre ++ acts, ?_⟩
+  rw [run_append, hpre]; simpa using hr
 
 /-- how long the lock can be held: pool.Poll() / try-send strictly decrease this measure … -/
-def holdMeasure (s : St) : Nat := 2 * s.pool.length + (optl s.inflight).length
+def holdMeasure (s : St) : Nat := passMeasure s
 
 /-- … every other action of a lock holder releases the lock; so a pass takes at most 2·|pool|+1 atoms and an
     Offer one atom after `Lock`: Offer, notifyWorkers (Poll/Take/GetChannel) and Count wait for the lock only
@@ -162,7 +188,7 @@ theorem C07_lock_hold_bounded (s s' : St) (a : Act) (h : step s a = some s') (hl
     (ha : a ≠ .recvWait ∧ a ≠ .recvTake ∧ a ≠ .tryRecv ∧ a ≠ .pollEmpty ∧ a ≠ .loaderWake) :
     s'.lock = .free ∨ (s'.lock = s.lock ∧ holdMeasure s' < holdMeasure s) := by
   cases a <;> simp only [step] at h <;> (repeat' split at h) <;> simp at h <;> (try subst h) <;>
-    simp_all [holdMeasure] <;> omega
+    simp_all [holdMeasure, passMeasure] <;> omega
 
 /-- no deadlock under the lock: whoever holds it has an enabled atom -/
 theorem C07_lock_holder_enabled (c b : Nat) (s : St) (h : Reach c b s) (hl : s.lock ≠ .free) :
